@@ -36,6 +36,10 @@ def run(ctx):
     for x in base:
         for d in base[:: (1 if ctx.tier != "quick" else 3)]:
             hs.append(([x, d], d)); hs.append(([d, x], d))
+    for f in vlib.scale_families().values():      # scale / rare-feature stream: the family as history, each member re-added
+        fs = [doc_str(x) for x in f]
+        for i, d in enumerate(fs):
+            hs.append((fs[i:] + fs[:i], d))
     ls = []
     for h, d in hs:
         for k in range(4):
